@@ -573,14 +573,21 @@ func blockSignalChan(ch chan chan struct{}) {
 
 func (c *Client) toOffline() {
 	verifPoint("toOffline.enter")
+	// The read state is lost either way, including on ErrClosed.
+	conn := c.readConn
+	c.readConn = nil
+	c.bigMessage = nil // lost
+	c.bufr = nil
+	c.peek = nil // applied to prevous r, if any
+
 	select {
 	case _, ok := <-c.writeSem:
 		if !ok {
 			return // ErrClosed
 		}
-		c.readConn.Close()
+		conn.Close()
 	default:
-		c.readConn.Close() // interrupt write
+		conn.Close() // interrupt write
 		_, ok := <-c.writeSem
 		if !ok {
 			return // ErrClosed
@@ -590,11 +597,6 @@ func (c *Client) toOffline() {
 	blockSignalChan(c.onlineSig)
 	clearSignalChan(c.offlineSig)
 	c.writeSem <- connPending
-
-	c.readConn = nil
-	c.bigMessage = nil // lost
-	c.bufr = nil
-	c.peek = nil // applied to prevous r, if any
 
 	c.pingMu.Lock()
 	select {
